@@ -244,6 +244,7 @@ fn decmap(m: &QMap) -> String {
     qmap_show(m)
 }
 
+const PRELUDE_FMT: &str = "commodity X\n  format 1 X\n\ncommodity Y\n  format 1 Y\n\ncommodity W\n  format 1 W\n\n2020/01/01 declare commodities\n  Z  0 X\n  Z  0 Y\n  Z  0 W\n\n";
 const PRELUDE: &str = "2020/01/01 declare commodities\n  Z  0 X\n  Z  0 Y\n  Z  0 W\n\n";
 
 fn judge(cx: Cx, sp: Spelling, t: &T) -> (String, Outcome) {
@@ -254,24 +255,32 @@ fn judge(cx: Cx, sp: Spelling, t: &T) -> (String, Outcome) {
         Cx::Eval => {
             let text = format!("({})", show(t, 0, false, sp));
             let desc = format!("eval {}", text);
-            let got: Result<std::collections::BTreeMap<String, rust_decimal::Decimal>, String> = oka::with_ledger(&[(oka::ROOT, PRELUDE)], oka::ROOT, None, |r| {
-                let (l, ctx) = r.expect("prelude must load");
-                l.eval(ctx, &text, &EvalContext { date: oka::date(2024, 1, 1), exchange: None }).map(|a| oka::amount_to_decmap(&a)).map_err(|e| format!("{:?}", e))
-            });
-            let out = match (&exp, &got) {
-                (R::DontCare(w), _) => Outcome::dont_care(format!("eval/dontcare/{}", w)),
-                (R::Val(V::Num(_)), _) => Outcome::dont_care("eval/dontcare/bare-number-result"),
-                (R::Reject(w), Ok(v)) => Outcome::violation(format!("eval/ill-typed-accepted/{}", w), format!("{} is ill-typed ({}) but evaluated to {:?}", text, w, v)),
-                (R::Reject(w), Err(_)) => Outcome::pass(format!("eval/rejected/{}", w)),
-                (R::Val(V::Amt(m)), Ok(v)) => {
-                    if same(m, v, approx) {
-                        Outcome::pass("eval/value-ok")
-                    } else {
-                        Outcome::violation("eval/value-differs", format!("{} should be {} but evaluated to {:?}", text, decmap(m), v))
+            // evaluated twice: with the commodities merely seen, and with every commodity declared with a 0-decimal-place format
+            // (an expression's value is its arithmetic value: a display format must not round it)
+            let mut out = Outcome::pass("eval/unset");
+            for (pn, prelude) in [("", PRELUDE), ("under-0dp-format/", PRELUDE_FMT)] {
+                let got: Result<std::collections::BTreeMap<String, rust_decimal::Decimal>, String> = oka::with_ledger(&[(oka::ROOT, prelude)], oka::ROOT, None, |r| {
+                    let (l, ctx) = r.expect("prelude must load");
+                    l.eval(ctx, &text, &EvalContext { date: oka::date(2024, 1, 1), exchange: None }).map(|a| oka::amount_to_decmap(&a)).map_err(|e| format!("{:?}", e))
+                });
+                out = match (&exp, &got) {
+                    (R::DontCare(w), _) => Outcome::dont_care(format!("eval/dontcare/{}", w)),
+                    (R::Val(V::Num(_)), _) => Outcome::dont_care("eval/dontcare/bare-number-result"),
+                    (R::Reject(w), Ok(v)) => Outcome::violation(format!("eval/{}ill-typed-accepted/{}", pn, w), format!("{} is ill-typed ({}) but evaluated to {:?}", text, w, v)),
+                    (R::Reject(w), Err(_)) => Outcome::pass(format!("eval/rejected/{}", w)),
+                    (R::Val(V::Amt(m)), Ok(v)) => {
+                        if same(m, v, approx) {
+                            Outcome::pass("eval/value-ok")
+                        } else {
+                            Outcome::violation(format!("eval/{}value-differs", pn), format!("{} should be {} but evaluated to {:?}", text, decmap(m), v))
+                        }
                     }
+                    (R::Val(V::Amt(m)), Err(e)) => Outcome::violation(format!("eval/{}well-typed-rejected", pn), format!("{} should be {} but was rejected: {}", text, decmap(m), e)),
+                };
+                if matches!(out.verdict, crate::fw::Verdict::Violation { .. }) {
+                    break;
                 }
-                (R::Val(V::Amt(m)), Err(e)) => Outcome::violation("eval/well-typed-rejected", format!("{} should be {} but was rejected: {}", text, decmap(m), e)),
-            };
+            }
             (desc, out)
         }
         Cx::Posting | Cx::Cost | Cx::Lot | Cx::Assign | Cx::Assert => {
